@@ -189,6 +189,11 @@ pub mod probe {
     pub fn dequeued(idx: usize) -> usize {
         super::lock().dequeued.get(idx).copied().unwrap_or(0)
     }
+    /// (messages dequeued on channel `idx`, now) under one lock
+    pub fn snapshot(idx: usize) -> (usize, u64) {
+        let st = super::lock();
+        (st.dequeued.get(idx).copied().unwrap_or(0), st.now)
+    }
     /// Block until the virtual time is at least `t` ns (a timed wait: the clock may jump to `t`).
     pub fn sleep_until(t: u64) {
         let mut st = super::lock();
